@@ -11,6 +11,7 @@ from harness import pcommon as pc
 
 PROPERTY = 'C03'
 THOROUGH_SCALE = 1.0
+THOROUGH_STRIDE = 3        # thorough tier = all quick cells + every 3rd thorough-only cell (sized to run end-to-end; '--cells' reaches the others)
 
 from fst.fst_misc import clip_src_loc, fixup_one_index, fixup_slice_indices, validate_put_arglike  # noqa: E402
 from fst.fst import _swizzle_getput_params  # noqa: E402
